@@ -172,7 +172,7 @@ TOther == Consume /\ E.e = "other_store" /\ Ev(pc[E.t] \in {"p_slot", "smove", "
 TRet == /\ Consume /\ E.e = "ret" /\ Stutter
         /\ Ev(pc[E.t] = "done" /\ Len(res[E.t]) = 1)
         /\ LET r == res[E.t][1] IN Ev(r.st = E.st /\ (r.op = "get" => r.w = E.w)
-                                       /\ (r.op \in {"scan", "iscan"} => r.w = [i \in 1..Len(E.w) |-> <<E.w[i][1], E.w[i][2]>>] /\ E.nvn >= 1))
+                                       /\ (r.op \in {"scan", "iscan", "rscan"} => r.w = [i \in 1..Len(E.w) |-> <<E.w[i][1], E.w[i][2]>>] /\ E.nvn >= 1))
 TEnd == Consume /\ E.e = "end" /\ Stutter /\ Ev(AllDone)
 \* silent: re-validation under the lock that goes on without a shared write
 TSilent == /\ l <= Len(Log) /\ UNCHANGED l
